@@ -5,27 +5,28 @@
    layout_b is its checker (evaluated by the harness on every implementation state it dumps).
 
    Proved in full, directly under Layout (WF = Layout with the decomposition named), for all documents, all
-   indices / slices / donor lists (Python index arithmetic included):
+   indices / slices / donor lists (Python index arithmetic included), for EVERY mutator of RepeatedNodeWrapper:
      _del_tokens (both branches), _insert_tokens (all three separator modes, any number of values),
-     insert, append, extend, xs[i] = v, xs[a:b] = vs (step 1, incl. b < a), del xs[i], del xs[a:b], pop, clear:
-     result = lay pre pht cs' post with   Edit cs cs' removed news   (cells before the window literally unchanged,
-     cells after keep their tokens, new cells are the donors' tokens), WF preserved, separation (C06) preserved;
-   C03_step / C03_history_partial / C03_history_step_partial: the invariant holds after every accepted or refused
-     call of any history and every accepted call is framed;  C03_frame_tokens: what the frame means token by token
-     (one window; tokens that appear / disappear are separator-kind or the children's own).
-   Still partial: extended-slice assignment (step <> 1) and drop_many / del xs[::k] (descending runs) are modelled and
-   run through the correspondence and the monitors but have no Layout theorem, hence the `_partial` suffix of the
-   history theorems (their op language has no such op).  The single-child slots (Fields.v) keep their exposed-span
-   statements (`_partial`): the pivot / first / last chains that expose the span are generated code (C05 / C15). *)
+     insert, append, extend, xs[i] = v, xs[a:b] = vs (step 1, incl. b < a), xs[a:b:k] = vs (the replace-one-at-a-time
+     loop), del xs[i], del xs[a:b], del xs[a:b:k], drop_many (sorted descending runs), pop, clear:
+     result = lay pre pht cs' post with   Edit cs cs' removed news   (one edit; a chain `Edits` of them for extended
+     slices / drop_many): cells before the window literally unchanged, cells after keep their tokens, new cells are the
+     donors' tokens; WF preserved; separation (C06) preserved;
+   C03_step / C03_history / C03_history_step: the invariant holds after every accepted or refused call of any history
+     over the full op language and every accepted call is framed;
+   C03_frame_tokens_edit (exact window of one edit) / C03_frame_tokens (any accepted call): tokens that appear or
+     disappear are separator-kind or the children's own, everything outside is the identical list.
+   The single-child slots (Fields.v) keep their exposed-span statements (`_partial`): the pivot / first / last chains
+   that expose the span are generated code (C05 / C15). *)
 From AB Require Import Prelude PySeq RepeatedLib Repeated Fields RepeatedProofs RepeatedLayout RepeatedInsert RepeatedCells
-  RepeatedSep RepeatedOps RepeatedSlices RepeatedHistory.
+  RepeatedSep RepeatedOps RepeatedSlices RepeatedDrop RepeatedExt RepeatedHistory.
 
 (* the boolean checker decides the invariant (soundness) *)
 Theorem C03_layout_checker_sound :
    forall (ph : Z) (d : doc) (items : list item), layout_b ph d items = true -> Layout ph d items.
 Proof. exact layout_b_sound. Qed.
 
-(* _del_tokens, both branches: cells A ++ M ++ B become del_res A M B (M removed; at the front the first gap survives) *)
+(* _del_tokens, both branches: cells A ++ M ++ B become del_res A M B *)
 Theorem C03_del_tokens :
    forall (ph : Z) (pre : list tok) (pht : tok) (A M B : list cell) (post : list tok),
        WF ph pre pht (A ++ M ++ B) post ->
@@ -34,7 +35,7 @@ Theorem C03_del_tokens :
        (lay pre pht (del_res A M B) post, Ok tt).
 Proof. exact del_layout. Qed.
 
-(* _insert_tokens, all three modes, any number of values: cells A ++ B become ins_res A B (new cells between A and B) *)
+(* _insert_tokens, all three modes, any number of values: cells A ++ B become ins_res A B *)
 Theorem C03_insert_tokens :
    forall (ph : Z) (seps sepsb : list (kind * str)),
        seps_ok seps ->
@@ -47,9 +48,8 @@ Theorem C03_insert_tokens :
         forall (b0 : cell) (B' : list cell),
         B = b0 :: B' -> sbl = Some (tid (last (pre ++ pht :: c_gap b0) dft)) \/ sbl = None /\ X = B) ->
        donors_ok fr (lay pre pht (A ++ B) post) vs ->
-       (exists fr' : Z,
-          insert_tokens ph seps sepsb (lay pre pht (A ++ B) post) items (zlen A) vs (zlen (A ++ B)) sbl fr =
-          (lay pre pht (ins_res seps sepsb A B fr vs) post, map emptied vs, fr', Ok tt)) /\
+       insert_tokens ph seps sepsb (lay pre pht (A ++ B) post) items (zlen A) vs (zlen (A ++ B)) sbl fr =
+       (lay pre pht (ins_res seps sepsb A B fr vs) post, map emptied vs, ins_fr seps sepsb A B fr vs, Ok tt) /\
        WF ph pre pht (ins_res seps sepsb A B fr vs) post /\
        map item_of (ins_res seps sepsb A B fr vs) = map item_of A ++ map node_item vs ++ map item_of B.
 Proof. exact ins_layout. Qed.
@@ -141,6 +141,26 @@ Theorem C03_setitem_slice :
          (Sep seps sepsb cs -> Sep seps sepsb cs').
 Proof. exact setslice_layout. Qed.
 
+(* xs[a:b:k] = vs (k <> 1, equal lengths): the loop replacing one item at a time; a chain of edits *)
+Theorem C03_setitem_ext_slice :
+   forall (ph : Z) (seps sepsb : list (kind * str)),
+       seps_ok seps ->
+       seps_ok sepsb ->
+       forall (pre : list tok) (pht : tok) (cs : list cell) (post : list tok) (sl : slc) 
+         (vs : list donor) (fr a b k : Z),
+       WF ph pre pht cs post ->
+       donors_ok fr (lay pre pht cs post) vs ->
+       NoDup (map d_node vs) ->
+       slice_indices (zlen cs) sl = Ok (a, b, k) ->
+       k <> 1 ->
+       range_len {| r_start := a; r_stop := b; r_step := k |} = zlen vs ->
+       exists (cs' M : list cell) (dl : list donor),
+         setitem_slice ph seps sepsb {| s_doc := lay pre pht cs post; s_items := map item_of cs |} sl vs fr =
+         ({| s_doc := lay pre pht cs' post; s_items := map item_of cs' |}, dl, Ok tt) /\
+         WF ph pre pht cs' post /\
+         Edits cs cs' M (map d_store vs) /\ (Sep seps sepsb cs -> Sep seps sepsb cs').
+Proof. exact setslice_ext_layout. Qed.
+
 (* del xs[i] / del xs[a:b] (step 1) *)
 Theorem C03_delitem :
    forall (ph : Z) (seps sepsb : list (kind * str)),
@@ -160,6 +180,39 @@ Theorem C03_delitem :
          Edit cs cs' M [] /\
          map item_of cs' = map item_of A ++ map item_of B /\ (Sep seps sepsb cs -> Sep seps sepsb cs').
 Proof. exact delitem_layout. Qed.
+
+(* del xs[a:b:k] (k <> 1) = drop_many of the addressed positions *)
+Theorem C03_delitem_ext :
+   forall (ph : Z) (seps sepsb : list (kind * str)) (pre : list tok) (pht : tok) 
+         (cs : list cell) (post : list tok) (index : pyidx) (fr : Z) (r : rng),
+       WF ph pre pht cs post ->
+       range_from_index index (zlen cs) = Ok r ->
+       r_step r <> 1 ->
+       match index with
+       | IInt _ => False
+       | ISlice sl => slice_indices (zlen cs) sl = Ok (r_start r, r_stop r, r_step r)
+       end ->
+       exists cs' M : list cell,
+         delitem ph seps sepsb {| s_doc := lay pre pht cs post; s_items := map item_of cs |} index fr =
+         ({| s_doc := lay pre pht cs' post; s_items := map item_of cs' |}, [], Ok tt) /\
+         WF ph pre pht cs' post /\ Edits cs cs' M [] /\ (Sep seps sepsb cs -> Sep seps sepsb cs').
+Proof. exact delitem_ext_layout. Qed.
+
+(* drop_many(indexes): sorted descending, grouped into runs, each run one _del_tokens against the unchanged item list; items = remove_positions *)
+Theorem C03_drop_many :
+   forall (ph : Z) (seps sepsb : list (kind * str)) (pre : list tok) (pht : tok) 
+         (cs : list cell) (post : list tok) (idxs : list Z),
+       WF ph pre pht cs post ->
+       NoDup idxs ->
+       (forall y : Z, In y idxs -> 0 <= y < zlen cs) ->
+       exists cs' M : list cell,
+         drop_many ph {| s_doc := lay pre pht cs post; s_items := map item_of cs |} idxs =
+         ({| s_doc := lay pre pht cs' post; s_items := map item_of cs' |}, [], Ok tt) /\
+         WF ph pre pht cs' post /\
+         Edits cs cs' M [] /\
+         (Sep seps sepsb cs -> Sep seps sepsb cs') /\
+         map item_of cs' = remove_positions (sort_desc idxs) (map item_of cs).
+Proof. exact drop_many_layout. Qed.
 
 (* pop(i): returns exactly the tokens of item i *)
 Theorem C03_pop :
@@ -185,7 +238,7 @@ Theorem C03_clear :
        WF ph pre pht [] post /\ Edit cs [] cs [].
 Proof. exact clear_layout. Qed.
 
-(* one accepted call: invariant kept, framed *)
+(* one accepted call of the full op language: invariant kept, framed *)
 Theorem C03_step :
    forall (ph : Z) (seps sepsb : list (kind * str)),
        seps_ok seps ->
@@ -196,7 +249,7 @@ Theorem C03_step :
 Proof. exact step_ok. Qed.
 
 (* after any history of accepted and refused calls the invariant holds *)
-Theorem C03_history_partial :
+Theorem C03_history :
    forall (ph : Z) (seps sepsb : list (kind * str)),
        seps_ok seps ->
        seps_ok sepsb ->
@@ -204,7 +257,7 @@ Theorem C03_history_partial :
 Proof. exact history_layout. Qed.
 
 (* at every point of any history: the next accepted call is framed, the next refused call changes nothing *)
-Theorem C03_history_step_partial :
+Theorem C03_history_step :
    forall (ph : Z) (seps sepsb : list (kind * str)),
        seps_ok seps ->
        seps_ok sepsb ->
@@ -215,7 +268,23 @@ Theorem C03_history_step_partial :
        (forall e : exn, op_fresh s o -> run_op ph seps sepsb s o = (s', Err e) -> s' = s).
 Proof. exact history_step. Qed.
 
-(* token-level reading of the frame *)
+(* token-level reading of one edit: the exact window *)
+Theorem C03_frame_tokens_edit :
+   forall (pre : list tok) (pht : tok) (cs cs' : list cell) (post : list tok) 
+         (M : list cell) (news : list (list tok)),
+       Forall cell_ok cs ->
+       Forall cell_ok cs' ->
+       Edit cs cs' M news ->
+       exists X W W' Y : list tok,
+         lay pre pht cs post = X ++ W ++ Y /\
+         lay pre pht cs' post = X ++ W' ++ Y /\
+         (forall t : tok,
+          In t W' -> In t W \/ is_sep (tkind t) = true \/ (exists b : list tok, In b news /\ In t b)) /\
+         (forall t : tok,
+          In t W -> In t W' \/ is_sep (tkind t) = true \/ (exists c : cell, In c M /\ In t (c_body c))).
+Proof. exact frame_tokens_edit. Qed.
+
+(* token-level reading of any accepted call (chain of edits) *)
 Theorem C03_frame_tokens :
    forall (ph : Z) (seps sepsb : list (kind * str)) (s s' : st),
        FrameS ph seps sepsb s s' ->
@@ -308,7 +377,7 @@ Proof. vm_compute. reflexivity. Qed.
 
 Example C03_history_nonvacuous :
   exists s', Hist 3 ex_seps ex_sepsb (mkst ex_doc ex_items)
-               [RInsert (-1) ex_v 100; RPop 7] s' /\ map fst (s_items s') = [5; 50; 8].
+               [RInsert (-1) ex_v 100; RPop 7; RDropMany [2; 0]] s' /\ map fst (s_items s') = [50].
 Proof.
   eexists. split.
   - eapply H_ok; [| vm_compute; reflexivity |].
@@ -317,6 +386,9 @@ Proof.
       * intros x Hx. cbn in Hx. intuition lia.
       * intros x Hx. cbn in Hx. intuition lia.
       * repeat constructor; cbn; intuition lia.
-    + eapply H_err; [exact I | vm_compute; reflexivity | apply H_nil].
+    + eapply H_err; [exact I | vm_compute; reflexivity |].
+      eapply H_ok; [| vm_compute; reflexivity | apply H_nil].
+      split; [|exact I]. split; [repeat constructor; cbn; intuition lia|].
+      intros y Hy. cbn in Hy. cbn. intuition lia.
   - reflexivity.
 Qed.
